@@ -19,7 +19,10 @@ LEVEL = "exploration"
 RULE = ("one run = one history of <= 40 update operations on one graph "
         "object (type, initial size 0..33 and constructor sampled; growth up "
         "to 40 vertices; networkx import with arbitrary node order and a "
-        "drawn labelling: ints, floats, gaps, negative, strings, mixed), "
+        "drawn labelling: ints, floats, gaps, negative, strings, mixed; "
+        "4% of the vertex arguments are not integers: floats, strings, "
+        "None; batches of add_edges_from as any iterable; copy / deepcopy / "
+        "pickle of the graph in mid-history), "
         "all "
         "views "
         "compared with a set-of-edges model after every operation. "
